@@ -411,6 +411,21 @@ func checkBytes(b []byte, st *Stats) error {
 	if err := sameOutcome("second ParseFile of the same file vs ParseObject", f2, o2); err != nil {
 		return errf("%v on input %q", err, clip(s, 200))
 	}
+	// the same file reached through a symbolic link (a 'current.json' link, a mounted configuration directory)
+	if len(b)%4 == 1 {
+		link := filepath.Join(dir, "link.json")
+		os.Remove(link)
+		if os.Symlink(path, link) == nil {
+			f3, err := guarded("ParseFile", callParseFile(link))
+			if err != nil {
+				return errf("%v on file content %q (through a symbolic link)", err, clip(s, 200))
+			}
+			if err := sameOutcome("ParseFile through a symbolic link vs ParseObject", f3, o2); err != nil {
+				return errf("%v on input %q", err, clip(s, 200))
+			}
+			st.Count("bytes.file_through_symlink")
+		}
+	}
 	// unreadable paths
 	for _, bad := range []string{filepath.Join(dir, "missing-"+fmt.Sprint(len(b))+".json"), dir, ""} {
 		m, err := guarded("ParseFile", callParseFile(bad))
